@@ -81,6 +81,10 @@ impl Pass0Context {
 /// itself (directly or through others) is reported instead of overflowing the stack.
 pub const MAX_MACRO_DEPTH: usize = 64;
 
+/// Longest body line (in bytes) accepted after argument substitution; a macro that passes an
+/// argument on twice (`m @0+@0`) doubles the text at every nesting level.
+pub const MAX_MACRO_LINE: usize = 65536;
+
 pub fn build_pass_0(
     parsed: ParseResult,
     common_context: &CommonContext,
@@ -190,6 +194,13 @@ fn macro_expand(
                 let string_rep = ops.iter().map(|x| x.to_string());
                 for (num, replacer) in string_rep.enumerate() {
                     raw_line = raw_line.replace(&format!("@{}", num), replacer.as_str());
+                }
+                if raw_line.len() > MAX_MACRO_LINE {
+                    bail!(
+                        "line of macro {} is too long after argument substitution, {}",
+                        macro_name,
+                        line
+                    );
                 }
                 processed.push((cp.clone(), raw_line));
             }
